@@ -143,6 +143,8 @@ def many_states_case(rng):
 
 
 def sval(c, i):
+    if c["vc"] == "many":
+        return i
     if c["vc"] == "inject":
         from vf.values import K
         perm = c.get("perm") or [0, 1, 2, 3]
@@ -150,7 +152,21 @@ def sval(c, i):
     return STATES[c["vc"]][i]
 
 
+def many_stack_case(rng, m=300):
+    """two states and three hundred stack symbols: a pushes some X_i, an even i is popped by b; the pops of state 1
+    (never reached with an X on the stack) are there to be confused with"""
+    trans = []
+    for i in range(1, m):
+        trans.append([0, 0, 0, 0, [i]])
+        if i % 2 == 0:
+            trans.append([0, 1, i, 1, []])
+        trans.append([1, 0, i, 1, []])
+    return {"n": 2, "m": m, "k": 2, "trans": trans, "start": 0, "zstart": 0, "finals": [1], "vc": "many"}
+
+
 def zval(c, i):
+    if c["vc"] == "many":
+        return "Z" if i == 0 else "X%d" % i
     if c["vc"] == "inject":
         from vf.values import K
         perm = c.get("zperm") or [0, 1, 2, 3]
